@@ -11,9 +11,12 @@ sys.path.insert(0, HERE)
 import vlib  # noqa
 
 props = [json.loads(l) for l in open(os.path.join(HERE, "properties.jsonl"))]
+accepted = set(open(os.path.join(HERE, "tools", "accepted.txt")).read().split())
 mods = {}
 for p in sorted(glob.glob(os.path.join(HERE, "props", "c*_*.py"))):
     name = os.path.basename(p)[:-3]
+    if name.split("_")[0].upper() not in accepted:
+        continue                       # module still being built / reviewed
     m = importlib.import_module("props." + name)
     mods[m.ID] = m
 
